@@ -1372,8 +1372,9 @@ class DiameterMessage:
 
         avp = self.__dict__[avp_key]
 
-        #: Updates DiameterMessage attributes.
-        self._avps.remove(avp)
+        #: Updates DiameterMessage attributes. The AVP is removed by identity:
+        #: DiameterAVP objects compare equal whenever their encodings match.
+        del self._avps[self._lookup_avp_index(avp)]
         self.__dict__.pop(avp_key, None)
 
         #: It updates the DiameterMessage object length attribute with the 
